@@ -1,33 +1,12 @@
-(** C11: outside the finding classes db.RenameMailboxPerUser and
+(** C11 (after the fix of the LIKE child query): outside the remaining finding classes db.RenameMailboxPerUser and
     db.DeleteMailboxPerUser compute the set semantics of Spec/Names.v. *)
 From Coq Require Import String Ascii List Bool Arith ZArith Lia.
-From Raven Require Import Base.GoStr Base.GoStrFacts Base.Like Model.Pattern Model.Names Spec.Names
-  Proof.LikeFacts Proof.NamesUpdates Proof.NamesParents.
+From Raven Require Import Base.GoStr Base.GoStrFacts Model.Pattern Model.Names Spec.Names
+  Proof.NamesRange Proof.NamesUpdates Proof.NamesParents.
 Import ListNotations.
 
-Lemma child_like old m : is_child old m = true -> like (child_pattern old) m = true.
-Proof.
-  intros H. apply is_child_split in H as [r ->]. unfold child_pattern.
-  change (old ++ [delim; like_pct]) with (old ++ [delim] ++ [like_pct]).
-  rewrite app_assoc. change (old ++ delim :: r) with (old ++ [delim] ++ r). rewrite app_assoc.
-  apply like_self_prefix.
-Qed.
-
-Lemma like_extra_false old ns :
-  like_extra old ns = false ->
-  forall m, In m ns -> like (child_pattern old) m = is_child old m.
-Proof.
-  unfold like_extra. intros H m Hm.
-  destruct (is_child old m) eqn:Ec; [now apply child_like|].
-  destruct (like (child_pattern old) m) eqn:El; [|reflexivity].
-  exfalso. assert (T : existsb (fun m => like (child_pattern old) m && negb (is_child old m)) ns = true).
-  { apply existsb_exists. exists m. rewrite El, Ec. auto. }
-  congruence.
-Qed.
-
-Lemma filter_like_children old ns :
-  like_extra old ns = false -> filter (like (child_pattern old)) ns = filter (is_child old) ns.
-Proof. intros H. apply filter_ext_in. intros m Hm. now apply like_extra_false with (ns := ns). Qed.
+Lemma filter_range_children old ns : filter (child_range old) ns = filter (is_child old) ns.
+Proof. apply filter_ext. intros m. apply child_range_is_child. Qed.
 
 Lemma existsb_false_forall {A} (f : A -> bool) l : existsb f l = false -> forall x, In x l -> f x = false.
 Proof.
@@ -43,11 +22,10 @@ Theorem db_rename_clean bs old new :
   exists_box bs old = true -> exists_box bs new = false ->
   existsb is_nil (raw_parents new) = false -> existsb twin (raw_parents new) = false ->
   is_child old new = false ->
-  like_extra old (names (set_name old new (add_missing (parents new) bs))) = false ->
   existsb (fun m => is_child new m) (names (add_missing (parents new) bs)) = false ->
   db_rename bs old new = (map (ren old new) (add_missing (parents new) bs), ROk).
 Proof.
-  intros Hnd Hn Ho Eo En Hnil Htw Hnc Hlike Hfree.
+  intros Hnd Hn Ho Eo En Hnil Htw Hnc Hfree.
   unfold db_rename. rewrite Hn, Ho, Eo, En. simpl.
   set (bs1 := add_missing (parents new) bs) in *.
   assert (Hpar : (if contains_byte new delim then rename_parents (paths_of new) bs else Some bs) = Some bs1).
@@ -60,7 +38,7 @@ Proof.
     - apply exists_box_false in En. contradiction.
     - rewrite parents_raw in H by assumption. apply raw_parents_child in H. rewrite is_child_self in H. discriminate. }
   unfold upd_name. rewrite (proj2 (exists_box_false bs1 new) Hnew1), andb_false_r.
-  rewrite filter_like_children by exact Hlike.
+  rewrite filter_range_children.
   destruct (rename_tx_clean bs1 old new) as (us & E1 & E2).
   - unfold bs1. now apply add_missing_nodup.
   - exact Hnew1.
@@ -69,9 +47,8 @@ Proof.
   - rewrite E1, E2. reflexivity.
 Qed.
 
-(** DELETE: with no LIKE-only rows the children test is the hierarchical one *)
+(** DELETE: the children test is the hierarchical one *)
 Theorem db_delete_clean bs n :
-  like_extra n (names bs) = false ->
   db_delete bs n =
   if str_eqb (to_upper n) INBOX then (bs, RNo)
   else if negb (exists_box bs n) then (bs, RNo)
@@ -79,13 +56,10 @@ Theorem db_delete_clean bs n :
   else if existsb (fun d => equal_fold n d) protected_names then (bs, RNo)
   else (filter (fun b => negb (str_eqb (mb_name b) n)) bs, ROk).
 Proof.
-  intros H. unfold db_delete.
-  replace (existsb (fun b => like (child_pattern n) (mb_name b)) bs)
+  unfold db_delete.
+  replace (existsb (fun b => child_range n (mb_name b)) bs)
     with (existsb (fun b => is_child n (mb_name b)) bs); [reflexivity|].
-  assert (K : forall b, In b bs -> like (child_pattern n) (mb_name b) = is_child n (mb_name b)).
-  { intros b Hb. apply like_extra_false with (ns := names bs); [exact H | now apply in_map]. }
-  clear H. induction bs as [|b bs IH]; simpl; [reflexivity|].
-  rewrite K by (simpl; auto). f_equal. apply IH. intros; apply K; simpl; auto.
+  induction bs as [|b bs IH]; simpl; [reflexivity|]. now rewrite IH, child_range_is_child.
 Qed.
 
 (** what the set semantics of RENAME means, name by name *)
@@ -126,22 +100,20 @@ Theorem db_rename_refines st old new :
   exists_box (boxes st) old = true -> exists_box (boxes st) new = false ->
   existsb is_nil (raw_parents new) = false -> existsb twin (raw_parents new) = false ->
   is_child old new = false ->
-  like_extra old (names (set_name old new (add_missing (parents new) (boxes st)))) = false ->
   existsb (fun m => is_child new m) (names (add_missing (parents new) (boxes st))) = false ->
   (let '(bs, r) := db_rename (boxes st) old new in (with_boxes st bs, r)) = spec_rename st old new.
 Proof.
-  intros Hnd Ho Hn Cn Co Eo En H1 H2 H3 H4 H5.
+  intros Hnd Ho Hn Cn Co Eo En H1 H2 H3 H5.
   unfold spec_rename. rewrite Ho, Hn, Cn, Co, Eo, En. simpl.
   rewrite canon_inbox in Cn, Co. rewrite db_rename_clean by assumption. reflexivity.
 Qed.
 
 Theorem db_delete_refines st n :
   is_nil n = false ->
-  like_extra n (names (boxes st)) = false ->
   (existsb (fun d => equal_fold n d) protected_names = mem_str n protected_names) ->
   (let '(bs, r) := db_delete (boxes st) n in (with_boxes st bs, r)) = spec_delete st n.
 Proof.
-  intros Hn Hl Hp. unfold spec_delete. rewrite Hn, canon_inbox, db_delete_clean by exact Hl.
+  intros Hn Hp. unfold spec_delete. rewrite Hn, canon_inbox, db_delete_clean.
   destruct (str_eqb (to_upper n) INBOX); [destruct st; reflexivity|].
   destruct (negb (exists_box (boxes st) n)); [destruct st; reflexivity|].
   destruct (existsb (fun b => is_child n (mb_name b)) (boxes st)); [destruct st; reflexivity|].
